@@ -4,10 +4,15 @@ package tests
 //   go test -run TestFindingLimit ./tests/
 
 import (
+	"context"
 	"fmt"
 	"strings"
 	"sync"
+	"sync/atomic"
 	"testing"
+	"time"
+
+	"github.com/ProtonMail/gluon/connector"
 
 	"github.com/ProtonMail/gluon/imap"
 	"github.com/ProtonMail/gluon/limits"
@@ -110,4 +115,97 @@ func TestFindingLimitConcurrentAppend(t *testing.T) {
 			t.Fatalf("round %d: INBOX holds %d messages, limit is %d", round, over, maxMessages)
 		}
 	}
+}
+
+func findingStatusMessages(c *testConnection, tag, mbox string) string {
+	un, _ := findingTagged5(c, tag, "STATUS "+mbox+" (MESSAGES)")
+	for _, l := range un {
+		if i := strings.Index(l, "MESSAGES "); i >= 0 {
+			return strings.TrimRight(l[i+len("MESSAGES "):], ")")
+		}
+	}
+	return "?"
+}
+
+// F-C17-4: a COPY that does not fit is refused, but the connector has already been told to add the
+// messages; when it echoes them back they are added one by one up to the limit: a partial effect of a
+// refused multi-message operation.
+func TestFindingLimitRefusedCopyHasNoPartialEffect(t *testing.T) {
+	const maxMessages = 3
+	lim := limits.NewIMAPLimits(100, maxMessages, 1<<30, 1<<30)
+	runOneToOneTestWithAuth(t, defaultServerOptions(t, withIMAPLimits(lim), withUIDValidityGenerator(imap.NewIncrementalUIDValidityGenerator())), func(c *testConnection, s *testSession) {
+		c.C("A001 CREATE src").OK("A001")
+		c.C("A002 CREATE dst").OK("A002")
+		for i := 0; i < 3; i++ {
+			c.doAppend("src", buildRFC5322TestLiteral(fmt.Sprintf("To: %d@pm.me\r\n\r\nbody", i))).expect("OK")
+		}
+		c.doAppend("dst", buildRFC5322TestLiteral("To: d@pm.me\r\n\r\nbody")).expect("OK")
+		s.flush("user")
+		c.C("A003 SELECT src").OK("A003")
+		// the limit also applies to connector updates; the test connector would panic on a refused one
+		s.setUpdatesAllowedToFail("user", true)
+		_, res := findingTagged5(c, "A004", "COPY 1:3 dst") // 1 + 3 > 3: must be refused
+		if !strings.HasPrefix(res, "A004 NO") {
+			t.Fatalf("COPY beyond the limit answered %q", res)
+		}
+		// let the connector deliver whatever it has queued
+		s.flush("user")
+		s.flush("user")
+		if got := findingStatusMessages(c, "A005", "dst"); got != "1" {
+			t.Fatalf("the refused COPY 1:3 left %s messages in dst (1 before the command, limit %d): partial effect", got, maxMessages)
+		}
+	})
+}
+
+// findingFailingCreates fails CreateMessage while `fail` is set (so that APPENDs end in the recovery mailbox).
+type findingFailingCreates struct {
+	*connector.Dummy
+	fail atomic.Bool
+}
+
+func (r *findingFailingCreates) CreateMessage(ctx context.Context, cache connector.IMAPStateWrite, mboxID imap.MailboxID, literal []byte, flags imap.FlagSet, date time.Time) (imap.Message, []byte, error) {
+	if r.fail.Load() {
+		return imap.Message{}, nil, fmt.Errorf("failed")
+	}
+	return r.Dummy.CreateMessage(ctx, cache, mboxID, literal, flags, date)
+}
+
+type findingFailingCreatesBuilder struct{ conns []*findingFailingCreates }
+
+func (b *findingFailingCreatesBuilder) New(usernames []string, password []byte, period time.Duration, flags, permFlags, attrs imap.FlagSet) Connector {
+	c := &findingFailingCreates{Dummy: connector.NewDummy(usernames, password, period, flags, permFlags, attrs)}
+	b.conns = append(b.conns, c)
+	return c
+}
+
+// F-C17-5: COPY out of the recovery mailbox imports the messages into the connector before the
+// destination's limits are checked.
+func TestFindingLimitRefusedCopyOutOfRecoveryHasNoPartialEffect(t *testing.T) {
+	const maxMessages = 3
+	lim := limits.NewIMAPLimits(100, maxMessages, 1<<30, 1<<30)
+	b := &findingFailingCreatesBuilder{}
+	runOneToOneTestWithAuth(t, defaultServerOptions(t, withIMAPLimits(lim), withConnectorBuilder(b), withUIDValidityGenerator(imap.NewIncrementalUIDValidityGenerator())), func(c *testConnection, s *testSession) {
+		c.C("A001 CREATE dst").OK("A001")
+		for i := 0; i < 2; i++ {
+			c.doAppend("dst", buildRFC5322TestLiteral(fmt.Sprintf("To: d%d@pm.me\r\n\r\nbody", i))).expect("OK")
+		}
+		// two APPENDs that the connector rejects end in the recovery mailbox
+		b.conns[0].fail.Store(true)
+		for i := 0; i < 2; i++ {
+			c.doAppend("dst", buildRFC5322TestLiteral(fmt.Sprintf("To: r%d@pm.me\r\n\r\nbody", i))).expect("NO")
+		}
+		b.conns[0].fail.Store(false)
+		s.flush("user")
+		c.C(`A002 SELECT "Recovered Messages"`).OK("A002")
+		s.setUpdatesAllowedToFail("user", true)
+		_, res := findingTagged5(c, "A003", "COPY 1:2 dst") // 2 + 2 > 3: must be refused
+		if !strings.HasPrefix(res, "A003 NO") {
+			t.Fatalf("COPY beyond the limit answered %q", res)
+		}
+		s.flush("user")
+		s.flush("user")
+		if got := findingStatusMessages(c, "A004", "dst"); got != "2" {
+			t.Fatalf("the refused COPY 1:2 out of the recovery mailbox left %s messages in dst (2 before the command, limit %d): partial effect", got, maxMessages)
+		}
+	})
 }
